@@ -10,23 +10,30 @@ let put_table (t : float list list) = put_i (List.length t); List.iter put_fl t
 
 (* header text: "-" = empty, otherwise hex-encoded bytes; the model takes the list of lines the writer
    produces (none for the empty string), each a list of tokens *)
-let unhex (h : string) : string =
+let unhex (h : Stdlib.String.t) : Stdlib.String.t =
   if h = "-" then "" else String.init (String.length h / 2) (fun k -> Char.chr (int_of_string ("0x" ^ String.sub h (2 * k) 2)))
-let is_simple_number (w : string) : bool =
+let is_simple_number (w : Stdlib.String.t) : bool =
   let n = String.length w in
   let digits = ref 0 and dots = ref 0 and ok = ref true in
   String.iter (fun c -> if c >= '0' && c <= '9' then incr digits else if c = '.' then incr dots else ok := false) w;
   n > 0 && !ok && !digits > 0 && !dots <= 1
 (* raw-file tokens: plain decimal / scientific notation is a number, anything starting with another character a word *)
-let is_number_token (w : string) : bool =
+let is_number_token (w : Stdlib.String.t) : bool =
   String.length w > 0 && (match w.[0] with '0'..'9' | '-' | '+' | '.' -> true | _ -> false)
   && (match float_of_string_opt w with Some _ -> true | None -> false)
   && not (String.contains w '_') && not (String.contains w 'x') && not (String.contains w 'n') && not (String.contains w 'i')
-let tokens_of (isnum : string -> bool) (l : string) : float tok list =
+let tokens_of (isnum : Stdlib.String.t -> bool) (l : Stdlib.String.t) : float tok list =
   String.split_on_char ' ' l |> List.concat_map (String.split_on_char '\t') |> List.filter (fun s -> s <> "")
   |> List.map (fun w -> if isnum w then Num (float_of_string w) else Word)
-let header_lines (h : string) : float tok list list =
+let header_lines (h : Stdlib.String.t) : float tok list list =
   if h = "" then [] else List.map (tokens_of is_simple_number) (String.split_on_char '\n' h)
+
+(* OCaml string -> the extracted Coq string (list of ascii, least significant bit first) *)
+let coq_string (s : Stdlib.String.t) =
+  let asc c = let n = Char.code c in
+    Ascii (n land 1 <> 0, n land 2 <> 0, n land 4 <> 0, n land 8 <> 0, n land 16 <> 0, n land 32 <> 0, n land 64 <> 0, n land 128 <> 0) in
+  let rec go i = if i >= String.length s then EmptyString else String (asc s.[i], go (i + 1)) in
+  go 0
 
 let rd_round r = integer r <> 0
 (* "amb <spec> <round-trip case>": the same request made in a process whose ambient state (global C++ locale, std::cout
@@ -113,6 +120,15 @@ let rec handler r =
         (match import_table fops f dims (nat_of_int ign) with
          | Ok t -> put_i (int_of_z (count_lines f)); put_table t
          | Exit -> put_w "EXIT" | OOB -> put_w "OOB" | Fuel -> put_w "FUEL")
+  | "unit_fold" -> let name = coq_string (word r) in
+      (* the constant's initialiser with the initialisers of the constants it names inlined: what the compiler folds *)
+      res_out put_f (fold_const fops Float.pi defs name)
+  | "unit_start" -> let name = coq_string (word r) in let k = integer r in
+      (* the value after start-up when the k listed constants are initialised dynamically, in textual order *)
+      let dyn = List.init k (fun _ -> coq_string (word r)) in
+      (match fold_const fops Float.pi defs name with
+       | Ok _ -> put_f (startup_const fops Float.pi dyn defs name)
+       | Exit -> put_w "EXIT" | OOB -> put_w "OOB" | Fuel -> put_w "FUEL")
   | "units" -> put_w "see-extra-stage"
   | o -> put_w ("MODELERR unknown_op_" ^ o)
 
